@@ -93,22 +93,26 @@ XRUN_BYTECODE = {'suite': 'bytecode', 'claim': 'BytecodeMapped (borrowed and own
                  'exec_bytecode == exec_ops (result, gas, pc, stack, memory, halt, repeat) from pc 0 and from pcs at / past the end',
                  'bound': 'all byte strings of length <= 1, a fifth of length 2 (thorough: all), length 3 over 14 representative bytes, Push with every truncation; every program of <= 3 ops (thorough 4) over a 20-op palette '
                           '(pushes, stack / alu / pred ops, JumpIf, HaltIf, Halt, Repeat, RepeatEnd, memory ops, Compute, ComputeEnd) x 3 initial stacks, gas limit 300'}
+XRUN_VMOPS = {'suite': 'vmops', 'claim': 'every synchronous VM operation == executable twin of the specification functions (asm.yml): whole resulting stack and memory, control flow, failure exactly when documented, '
+              'stack / memory limits, no panic; state-read routing and memory layout (incl. states returning more values than asked); repeat trip counts; eval; gas sums, limits and out-of-gas before execution; SHA-256 marshalling; EqSet',
+              'bound': '41 ops x all operand pairs from 17 boundary words (0, +-1.., 63, 64, 4095, 4096, i64::MIN/MAX..) x 4 stack bases x 3 memories; 3-operand ops over 8 words; range ops over all arrays of <= 3 words from {0,1,7} with '
+                       'declared lengths +-1; EqSet over sets of <= 3 items; stacks at 4091..4096 words, memory at the limit; 6 keys x 5 counts x 5 addresses x 3 memory sizes x 4 state ops; 6 cost tables x 15 gas limits'}
 PROPS = {
-    'C05': {'level': 'proof', 'verus_units': ['vm_core'], 'kani': [KANI_VM_OPS_ALL],
+    'C05': {'level': 'proof', 'verus_units': ['vm_core'], 'xrun': [XRUN_VMOPS], 'kani': [KANI_VM_OPS_ALL],
             'probes': [{'name': 'probe-breadth', 'input': 'ops [Push(2^40), Compute, ComputeEnd], gas limit 1000, op cost 1',
                         'claim': 'a Compute whose breadth is far beyond what the gas limit can pay for returns a typed error or success; it does not exhaust memory or time',
                         'bound': 'one input, run under a 3 GB address-space limit and a 20 s time limit'}],
             'explanation': 'VM totality / resource bounds: every function of the synchronous VM core carries vm_wf-style '
                            'pre/postconditions and is verified by Verus, which also generates the no-overflow / in-bounds / no-panic goals.'},
-    'C08': {'level': 'proof', 'verus_units': ['vm_core'], 'kani': [KANI_VM_OPS_DATA],
+    'C08': {'level': 'proof', 'verus_units': ['vm_core'], 'xrun': [XRUN_VMOPS], 'kani': [KANI_VM_OPS_DATA],
             'explanation': 'per-op functional contracts against spec functions written from asm.yml'},
-    'C09': {'level': 'proof', 'verus_units': ['vm_core'], 'kani': [KANI_VM_OPS_CF],
+    'C09': {'level': 'proof', 'verus_units': ['vm_core'], 'xrun': [XRUN_VMOPS], 'kani': [KANI_VM_OPS_CF],
             'explanation': 'control flow / repeat / eval contracts'},
-    'C07': {'level': 'proof', 'verus_units': ['vm_core'],
+    'C07': {'level': 'proof', 'verus_units': ['vm_core'], 'xrun': [XRUN_VMOPS],
             'explanation': 'Vm::exec loop invariant over a ghost trace of visited pcs and child gas: exact sum, <= limit, no overflow, out-of-gas raised before step_op, termination variant for positive costs'},
-    'C11': {'level': 'proof', 'verus_units': ['vm_core'],
+    'C11': {'level': 'proof', 'verus_units': ['vm_core'], 'xrun': [XRUN_VMOPS],
             'explanation': 'state-read ops: operand popping, view/contract routing, memory layout (layout_k), frame'},
-    'C12': {'level': 'proof', 'verus_units': ['vm_core'], 'kani': [KANI_VM_OPS_ACCESS],
+    'C12': {'level': 'proof', 'verus_units': ['vm_core'], 'xrun': [XRUN_VMOPS], 'kani': [KANI_VM_OPS_ACCESS],
             'explanation': 'access ops against spec functions; crypto marshalling assumed'},
     'C06': {'level': 'proof', 'verus_units': ['types_core', 'check_core'],
             'explanation': 'decoders / validators / graph helpers carry no precondition on the untrusted argument; Verus discharges every index, slice, unwrap/expect, arithmetic obligation'},
